@@ -1,7 +1,7 @@
 (* C11 — deciding obligations of the codec core (proof part of the property; the per-class part is explored
    by vf/checks/c11.py).  Statements only, closed by the lemmas proved in Codec/JsonMemoProofs.v. *)
 From Coq Require Import ZArith List Bool String.
-From VF Require Import Codec.JsonMemo Codec.JsonMemoProofs Codec.KeyPath Codec.KeyPathProofs Codec.MemoHash Codec.MemoHashProofs Codec.OptField Codec.OptFieldProofs.
+From VF Require Import Codec.JsonMemo Codec.JsonMemoProofs Codec.KeyPath Codec.KeyPathProofs Codec.MemoHash Codec.MemoHashProofs Codec.OptField Codec.OptFieldProofs Codec.CanonForm Codec.CanonFormProofs.
 Import ListNotations.
 
 (* reading back what the encoder wrote gives the value, for every finite value and every choice of by-key classes;
@@ -280,3 +280,55 @@ Example C11_example_counts : count_ok 2 [3%N; 2%N] = true /\ count_roundtrip 2 [
   count_ok 3 [2%N; 2%N; 2%N] = true /\ write_field omit_if_qubits 3%N [2%N; 2%N; 2%N] = None /\
   count_read 3 None = Some [2%N; 2%N; 2%N].
 Proof. exact count_examples. Qed.
+
+(* ---------- classes whose == is coarser than their behaviour (Codec/CanonForm.v) ---------- *)
+(* a writer that puts a representative of the ==-class into the document: behaviour comes back for every value exactly when
+   the representative behaves like the value *)
+Theorem C11_representative_writer_behaviour : forall (V O : Type) (rep : V -> V) (obs : V -> O),
+  (forall v, obs (doc_roundtrip rep v) = obs v) <-> (forall v, obs (rep v) = obs v).
+Proof. exact rep_roundtrip_behaviour_iff. Qed.
+Print Assumptions C11_representative_writer_behaviour.
+
+(* PhasedXZGate._canonical yields exponents in its canonical ranges, leaves such exponents alone, and is idempotent *)
+Theorem C11_pxz_canonical_in_range : forall D g, (0 < D)%Z -> pxz_in_range D (pxz_canon D g).
+Proof. exact pxz_canon_in_range. Qed.
+Print Assumptions C11_pxz_canonical_in_range.
+
+Theorem C11_pxz_canonical_fixes_range : forall D g, (0 < D)%Z -> pxz_in_range D g -> pxz_canon D g = g.
+Proof. exact pxz_canon_fixes_range. Qed.
+Print Assumptions C11_pxz_canonical_fixes_range.
+
+Theorem C11_pxz_canonical_idempotent : forall D g, (0 < D)%Z -> pxz_canon D (pxz_canon D g) = pxz_canon D g.
+Proof. exact pxz_canon_idempotent. Qed.
+Print Assumptions C11_pxz_canonical_idempotent.
+
+(* the document of the code (the stored exponents) gives back the gate itself *)
+Theorem C11_pxz_stored_roundtrip : forall D g, doc_roundtrip (pxz_write_stored D) g = g.
+Proof. exact pxz_stored_roundtrip. Qed.
+Print Assumptions C11_pxz_stored_roundtrip.
+
+(* a document holding the canonical exponents reads to a gate == the one written, to the very gate when its exponents were
+   canonical already (every stored example), and to a gate with another matrix for x_exponent = -1/2 *)
+Theorem C11_pxz_canonical_writer_keeps_eq : forall D g, (0 < D)%Z ->
+  pxz_same D (doc_roundtrip (pxz_write_canon D) g) g = true.
+Proof. exact pxz_canon_writer_keeps_eq. Qed.
+Print Assumptions C11_pxz_canonical_writer_keeps_eq.
+
+Theorem C11_pxz_canonical_writer_exact_in_range : forall D g, (0 < D)%Z -> pxz_in_range D g ->
+  doc_roundtrip (pxz_write_canon D) g = g.
+Proof. exact pxz_canon_writer_exact_in_range. Qed.
+Print Assumptions C11_pxz_canonical_writer_exact_in_range.
+
+Theorem C11_pxz_canonical_writer_behaviour_refuted : exists D g, (0 < D)%Z /\
+  pxz_same D (doc_roundtrip (pxz_write_canon D) g) g = true /\
+  pxz_det_phase D (doc_roundtrip (pxz_write_canon D) g) <> pxz_det_phase D g.
+Proof. exact pxz_canon_writer_behaviour_refuted. Qed.
+Print Assumptions C11_pxz_canonical_writer_behaviour_refuted.
+
+(* the hypotheses are satisfiable: D = 8 (exponents in eighths), a gate in range, gates out of range and their canonical forms *)
+Example C11_example_canon_forms :
+  pxz_in_range 8 (4, 2, 12)%Z /\ pxz_canon 8 (4, 2, 12)%Z = (4, 2, 12)%Z /\
+  pxz_canon 8 (-4, 2, 2)%Z = (4, 2, -14)%Z /\ pxz_canon 8 (12, 2, 2)%Z = (4, 2, -14)%Z /\
+  pxz_canon 8 (8, 4, 4)%Z = (8, 0, 8)%Z /\ pxz_canon 8 (16, 2, 5)%Z = (0, 2, 0)%Z /\
+  pxz_det_phase 8 (-4, 2, 2)%Z = 14%Z /\ pxz_det_phase 8 (4, 2, -14)%Z = 6%Z.
+Proof. exact canon_form_examples. Qed.
